@@ -160,6 +160,11 @@ def run(ctx):
     leaves = compound_leaves()
     ctx.pmap(_leaf_unit, [leaves[i::16] for i in range(16)])
     ctx.layer("compound_leaves", leaves=len(leaves), contexts=8, exhaustive=True)
+    # history layer: one shared renderer/parser, serially, all leaves and all k<=1 trees forward then reverse
+    hist = list(leaves) + [t for si in range(len(T.shapes(1))) for t in T.op_trees_of_shape(T.shapes(1)[si], offset=si)]
+    for t in hist + hist[::-1]:
+        roundtrip_case(to_odata(t), ctx, "history")
+    ctx.layer("history-forward-reverse", texts=2 * len(hist), exhaustive=True)
 
 
 def replay(ctx, case):
